@@ -1,2 +1,139 @@
+import PelProofs.FramesPel
+import PelProofs.PelPropsAux
+import PelGen.Live
+import PelProps.Golden
+/-
+  C02 — Header-type sections display exactly the values encoded in the log.
+  `renderPH/UH/EH/MT/LP` are written field by field from the PEL layout (PelModel/PelSpec.lean); the theorems say
+  that decoding the encoding of any field values (within their widths, any name tables) yields exactly that rendering
+  and consumes exactly the section's bytes.
+-/
 namespace Pel.C02
+
+/-! Pins: every published table entry is still mapped to the same name by the live tables -/
+theorem pin_subsystems : ∀ p ∈ Golden.subsystemValues, ∀ live ∈ Live.subsystemValues, lookupN live p.1 = some p.2 := by decide
+theorem pin_severities : ∀ p ∈ Golden.severityValues, ∀ live ∈ Live.severityValues, lookupN live p.1 = some p.2 := by decide
+theorem pin_event_types : ∀ p ∈ Golden.eventTypeValues, ∀ live ∈ Live.eventTypeValues, lookupN live p.1 = some p.2 := by decide
+theorem pin_event_scopes : ∀ p ∈ Golden.eventScopeValues, ∀ live ∈ Live.eventScopeValues, lookupN live p.1 = some p.2 := by decide
+theorem pin_action_flags : ∀ p ∈ Golden.actionFlagsValues, ∀ live ∈ Live.actionFlagsValues, lookupN live p.1 = some p.2 := by decide
+theorem pin_transmission : ∀ p ∈ Golden.transmissionStates, ∀ live ∈ Live.transmissionStates, lookupN live p.1 = some p.2 := by decide
+theorem pin_creators : ∀ p ∈ Golden.creatorIDs, ∀ live ∈ Live.creatorIDs, lookupT live p.1 = some p.2 := by decide
+/-- every key of the live action-flag table is a single bit -/
+theorem pin_action_flags_single_bits : ∀ live ∈ Live.actionFlagsValues, ∀ p ∈ live, ∃ k, k < 16 ∧ p.1 = 2 ^ k := by
+  decide
+
+/-- ★ Private Header: for all field values within their widths and all tables -/
+theorem ph_fields (T : Tables) (p : APH) (hp : p.WF) (count : Nat) (hc : count < 256) (len : Nat) (rest : Bytes) :
+    decodePH T (mkSecHdr sidPH len p.hdr) (p.encBody count ++ rest) =
+      .ok ((renderPH T p, { creator := [p.creator], sectionCount := count, obmcLogID := p.obmc, plid := p.plid,
+                            eid := p.eid, commitTime := bcdTime p.commit }), rest) :=
+  (frames_PH T p hp count hc len).exact rest
+
+/-- ★ User Header -/
+theorem uh_fields (T : Tables) (u : AUH) (hu : u.WF) (creator : Text) (len : Nat) (rest : Bytes) :
+    decodeUH T (mkSecHdr sidUH len u.hdr) creator (u.encBody ++ rest) =
+      .ok ((renderUH T u creator, { severity := u.sev, actionFlags := u.af }), rest) :=
+  (frames_UH T u hu creator len).exact rest
+
+/-- ★ Extended User Header -/
+theorem eh_fields (T : Tables) (h : AHdr) (creator : Text) (e : AEH) (he : e.WF) (id len : Nat) (rest : Bytes) :
+    decodeEH T (mkSecHdr id len h) creator (e.encBody ++ rest) = .ok (renderEH T h creator e, rest) :=
+  (frames_EH T h creator e he id len).exact rest
+
+/-- ★ Failing MTMS -/
+theorem mt_fields (T : Tables) (h : AHdr) (creator : Text) (m : AMT) (hm : m.WF) (id len : Nat) (rest : Bytes) :
+    decodeMT T (mkSecHdr id len h) creator (m.encBody ++ rest) = .ok (renderMT T h creator m, rest) :=
+  (frames_MT T h creator m hm id len).exact rest
+
+/-- ★ Impacted Partition: every target partition id is displayed -/
+theorem lp_fields (T : Tables) (h : AHdr) (creator : Text) (l : ALP) (hl : l.WF) (id len : Nat) (rest : Bytes) :
+    decodeLP T (mkSecHdr id len h) creator (l.encBody ++ rest) = .ok (renderLP T h creator l, rest) :=
+  (frames_LP T h creator l hl id len).exact rest
+
+/-- ★ the displayed numeric text determines the encoded value: hexadecimal ids … -/
+theorem hex_display_injective (w v v' : Nat) (hv : v < 16 ^ w) (hv' : v' < 16 ^ w) (h : hexFix w v = hexFix w v') : v = v' := by
+  have h1 := parseHexText_hexFix w v hv
+  have h2 := parseHexText_hexFix w v' hv'
+  rw [h] at h1
+  omega
+/-- … ids printed with `{:02X}` (at least two digits, no padding to eight) … -/
+theorem id_display_injective (v v' : Nat) (h : fmtHex 2 v = fmtHex 2 v') : v = v' := by
+  exact fmtHex_injective 2 v v' h
+/-- … and decimal counts -/
+theorem dec_display_injective (v v' : Nat) (h : natDec v = natDec v') : v = v' := by
+  have h1 := decVal_natDec' v
+  rw [h, decVal_natDec'] at h1
+  exact h1.symm
+
+/-- ★ action flags: the displayed list is exactly the names of the defined bits that are on, in table order -/
+theorem action_flags_exact (T : Tables) (u : AUH) (creator : Text)
+    (hbits : ∀ p ∈ T.actionFlags, ∃ k, p.1 = 2 ^ k) :
+    ∃ rest1 rest2, renderUH T u creator = .obj (rest1 ++ [(s "Action Flags",
+        .arr ((T.actionFlags.filter (fun p => u.af / p.1 % 2 = 1)).map (fun p => .str p.2)))] ++ rest2) := by
+  have hf : T.actionFlags.filter (fun p => p.1 &&& u.af != 0) =
+      T.actionFlags.filter (fun p => decide (u.af / p.1 % 2 = 1)) := by
+    apply List.filter_congr
+    intro p hp
+    obtain ⟨k, hk⟩ := hbits p hp
+    rw [hk, Nat.and_comm, and_pow_ne_zero]
+  refine ⟨hdrMembers T u.hdr creator "Log Committed by" ++ [
+    kv "Subsystem" (jstr ((lookupN T.subsystems u.subsys).getD (s "Invalid"))),
+    kv "Event Scope" (jstr ((lookupN T.eventScopes u.scope).getD (s "Invalid"))),
+    kv "Event Severity" (jstr ((lookupN T.severities u.sev).getD (s "Invalid"))),
+    kv "Event Type" (jstr ((lookupN T.eventTypes u.etype).getD (s "Invalid")))],
+    [kv "Host Transmission" (jstr ((lookupN T.transStates (u.states % 256)).getD (s "Unknown"))),
+     kv "HMC Transmission" (jstr ((lookupN T.transStates (u.states / 256 % 256)).getD (s "Unknown")))], ?_⟩
+  unfold renderUH
+  rw [hf]
+  rfl
+
+/-- the BCD time stamp is displayed as MM/DD/YYYY HH:MM:SS from the stored digits -/
+theorem bcd_time (cc yy mo dd hh mi ss hs : Nat) :
+    bcdTime [cc, yy, mo, dd, hh, mi, ss, hs] =
+      [hexL (mo / 16), hexL mo, 47, hexL (dd / 16), hexL dd, 47, hexL (cc / 16), hexL cc, hexL (yy / 16), hexL yy, 32,
+       hexL (hh / 16), hexL hh, 58, hexL (mi / 16), hexL mi, 58, hexL (ss / 16), hexL ss] := by
+  simp [bcdTime, bytesHexL]
+
+/-- text fields are displayed without their NUL padding, characters otherwise unchanged -/
+theorem text_without_padding (body : Text) (k : Nat) (hb : body ≠ [] → body.head? ≠ some 0 ∧ body.getLast? ≠ some 0) :
+    stripNul (body ++ List.replicate k 0) = body := by
+  unfold stripNul rstripChar lstripChar
+  cases body with
+  | nil => simp
+  | cons a b =>
+    obtain ⟨h1, h2⟩ := hb (by simp)
+    have ha : (a == 0) = false := by simpa using h1
+    rw [List.cons_append, List.dropWhile_cons, ha]
+    simp only [Bool.false_eq_true, if_false]
+    rw [← List.cons_append, List.reverse_append, List.reverse_replicate, dropWhile_replicate_append]
+    have hl : (a :: b).reverse.head? ≠ some 0 := by rwa [List.head?_reverse]
+    cases hr : (a :: b).reverse with
+    | nil => simp at hr
+    | cons x r =>
+      rw [hr] at hl
+      have hx : (x == 0) = false := by simpa using hl
+      rw [List.dropWhile_cons, hx]
+      simp only [Bool.false_eq_true, if_false]
+      rw [← hr, List.reverse_reverse]
+
+/-- PHYP component ids are two ASCII characters when both bytes are non-zero, else four hex digits -/
+theorem compid_phyp (T : Tables) (comp : Nat) (creator : Text) (h : lookupT T.creators creator = some (s "PHYP")) :
+    displayCompID T comp creator =
+      (if comp / 256 % 256 ≠ 0 ∧ comp % 256 ≠ 0 then [comp / 256 % 256, comp % 256] else fmtHex 4 comp) := by
+  unfold displayCompID
+  rw [if_pos h]
+
+/-- other creators: the registry name for `%04X` of the id if there is one, else the four hex digits -/
+theorem compid_other (T : Tables) (comp : Nat) (creator : Text) (h : lookupT T.creators creator ≠ some (s "PHYP")) :
+    displayCompID T comp creator =
+      (((T.compIds.find? (fun p => p.1 == creator)).bind (fun e => lookupT e.2 (fmtHex 4 comp))).getD (fmtHex 4 comp)) := by
+  unfold displayCompID
+  rw [if_neg h]
+  cases T.compIds.find? (fun p => p.1 == creator) with
+  | none => rfl
+  | some e =>
+    obtain ⟨c, m⟩ := e
+    simp only [Option.bind_some]
+    cases lookupT m (fmtHex 4 comp) <;> rfl
+
 end Pel.C02
